@@ -33,7 +33,9 @@ static int g_sched_changed;
 /* the byte copies live at every natural alignment of the type within 32 bytes (a schedule on the caller's stack is
  * aligned for its members, not for vector loads) */
 static unsigned g_copy_toggle; static uint8_t g_copy_pool[sizeof(Skinny128Key_t) + sizeof(Skinny64Key_t) + 64] __attribute__((aligned(64)));
-#define COPY_AT(type, sel) ((type *)(void *)(g_copy_pool + _Alignof(type) * ((unsigned)(sel) % (32u / _Alignof(type)))))   /* set when a block function modified the schedule it takes as const */
+/* ... and, every fourth one, flush against an unreadable page: ending right before one, or starting right after one */
+#define COPY_AT(type, sel) (((unsigned)(sel) & 3) == 3 ? (type *)(void *)((((unsigned)(sel) >> 2) & 1) ? guard_tail(0, sizeof(type)) : guard_head(1, sizeof(type))) \
+                            : (type *)(void *)(g_copy_pool + _Alignof(type) * (((unsigned)(sel) >> 2) % (32u / _Alignof(type)))))   /* set when a block function modified the schedule it takes as const */
 
 static int real_skinny(int bs, const uint8_t *key, int klen, int dir,
                        const uint8_t *in, uint8_t *out)
@@ -78,6 +80,7 @@ static void c01_case(const uint8_t *buf, size_t m, void *arg)
     uint64_t h;
     (void)m;
     ++g_cnt.evaluations;
+    { int cv[2]; cv[0] = c->vi; cv[1] = c->dir; crash_case("C01", "c01", 2, cv, buf, m); }
     memset(real, 0, sizeof(real));
     if (!real_skinny(c->bs, key, c->klen, c->dir, blk, real)) {
         snprintf(sig, sizeof(sig), "C01/%s/set_key-rejected", VNAME[c->vi]);
@@ -188,6 +191,7 @@ static void c02_case(const uint8_t *buf, size_t m, void *arg)
     MantisKey_t ks, ks_before;
     (void)m;
     ++g_cnt.evaluations;
+    { int cv[3]; cv[0] = c->rounds; cv[1] = c->mode; cv[2] = c->path; crash_case("C02", "c02", 3, cv, buf, 32); }
     verif_paint_obj(&ks, sizeof(ks)); verif_paint_stack();
     if (mantis_set_key(&ks, key, 16, (unsigned)c->rounds,
                        c->mode ? MANTIS_DECRYPT : MANTIS_ENCRYPT) != 1) {
@@ -242,6 +246,7 @@ static void c02z_case(const uint8_t *buf, size_t m, void *arg)
     MantisKey_t ks;
     (void)m;
     ++g_cnt.evaluations;
+    { int cv[3]; cv[0] = c->rounds; cv[1] = c->mode; cv[2] = c->how; crash_case("C02", "c02z", 3, cv, buf, 24); }
     verif_paint_obj(&ks, sizeof(ks)); verif_paint_stack();
     if (mantis_set_key(&ks, key, 16, (unsigned)c->rounds, c->mode ? MANTIS_DECRYPT : MANTIS_ENCRYPT) != 1) {
         violation("C02/set_key-rejected", "", "mantis_set_key returned 0");
@@ -318,6 +323,7 @@ static void c03_case(const uint8_t *buf, size_t m, void *arg)
     char sig[96], cd[400];
     int order;
     (void)m;
+    { int cv[1]; cv[0] = c->vi; crash_case("C03", "c03", 1, cv, buf, m); }
     for (order = 0; order < 2; ++order) {   /* 0: D(E(x)), 1: E(D(y)) */
         ++g_cnt.evaluations;
         if (!real_skinny(c->bs, key, c->klen, order, blk, t) || !real_skinny(c->bs, key, c->klen, !order, t, u)) {
@@ -343,6 +349,7 @@ static void c03m_case(const uint8_t *buf, size_t m, void *arg)
     char sig[96], cd[200];
     int order;
     (void)m;
+    { int cv[1]; cv[0] = c->rounds; crash_case("C03", "c03m", 1, cv, buf, 32); }
     memset(&e, 0x11, sizeof(e)); memset(&d, 0x22, sizeof(d));
     if (mantis_set_key(&e, key, 16, (unsigned)c->rounds, MANTIS_ENCRYPT) != 1 ||
         mantis_set_key(&d, key, 16, (unsigned)c->rounds, MANTIS_DECRYPT) != 1 ||
@@ -418,6 +425,7 @@ static void c04_case(const uint8_t *buf, size_t m, void *arg)
     char sig[96], cd[400];
     int ok;
     ++g_cnt.evaluations;
+    { int cv[4]; cv[0] = c->bs; cv[1] = c->klen; cv[2] = c->dir; cv[3] = c->how; crash_case("C04", "c04", 4, cv, buf, m); }
     memcpy(tweak, buf, (size_t)c->bs);
     if (c->how == 1) memset(tweak, 0, 16);
     if (c->bs == 16) {
@@ -474,6 +482,7 @@ int main(int argc, char **argv)
     run_prelude();
     if (ref_selftest() != 0) engine_error("reference self-test failed");
     if (!g_opts.sub) engine_error("--sub required");
+    crash_guard_install();
     if (!strcmp(g_opts.sub, "c01")) run_c01();
     else if (!strcmp(g_opts.sub, "c02")) run_c02();
     else if (!strcmp(g_opts.sub, "c03")) run_c03();
